@@ -393,15 +393,60 @@ func (c *FnCtx) boundFor(st *State, term string) string {
 	} else if j := strings.IndexAny(t, " )"); j > 0 {
 		symb = t[:j]
 	}
+	if symb == "" || len(t) <= len(symb)+1 {
+		return st.alloc
+	}
+	mark := ""
 	if strings.HasSuffix(symb, "!0") || strings.HasSuffix(symb, "!0|") {
 		if _, isHeap := c.sc.declared[symb]; isHeap && c.top != nil && c.top.entrySt != nil {
-			return c.top.entrySt.alloc
+			mark = c.top.entrySt.alloc
 		}
 	}
 	if a, ok := c.verAlloc[symb]; ok {
-		return a
+		mark = a
 	}
-	return st.alloc
+	if mark == "" || mark == st.alloc {
+		return st.alloc
+	}
+	// the entry must belong to an object that already existed at the mark: the contents of
+	// objects allocated later by a callee are not described by this version
+	base := firstSexpr(t[len(symb)+1:])
+	if base == "" {
+		return st.alloc
+	}
+	return "(ite (<= " + base + " " + mark + ") " + mark + " " + st.alloc + ")"
+}
+
+// firstSexpr returns the first s-expression (atom or parenthesised term) at the start of s.
+func firstSexpr(s string) string {
+	d := 0
+	inq := false
+	for i, ch := range s {
+		if ch == '|' {
+			inq = !inq
+			continue
+		}
+		if inq {
+			continue
+		}
+		switch ch {
+		case '(':
+			d++
+		case ')':
+			if d == 0 {
+				return s[:i]
+			}
+			d--
+			if d == 0 {
+				return s[:i+1]
+			}
+		case ' ':
+			if d == 0 {
+				return s[:i]
+			}
+		}
+	}
+	return ""
 }
 
 // sliceFacts asserts len <= cap <= 2^62 for every slice inside a value read from the heap.
